@@ -585,6 +585,83 @@ func runC07(r *engine.Run) {
 		}
 	})
 
+	// ---- a refused encoding before a valid one: FOpts (and a port-0 payload) whose first command encodes
+	// and whose second is out of range is refused; the next valid sequence still decodes into exactly
+	// itself. One worker: what a refused call leaves behind is process state.
+	{
+		type dc struct {
+			uplink bool
+			cid    byte
+		}
+		var firsts []dc
+		for _, up := range []bool{true, false} {
+			for _, cid := range spec.DirCIDs(up) {
+				firsts = append(firsts, dc{up, cid})
+			}
+		}
+		r.PartWorkers("streams/refused-then-valid", []string{fmt.Sprintf("command that encodes before the refused one:%d", len(firsts)), "carrier{FOpts, port-0 FRMPayload}"}, uint64(len(firsts))*2, 1, func(c *engine.Case) {
+			f := firsts[c.Index/2]
+			inFRM := c.Index%2 == 1
+			c.Eval()
+			mt := lorawan.UnconfirmedDataDown
+			if f.uplink {
+				mt = lorawan.UnconfirmedDataUp
+			}
+			bad := lorawan.Payload(&lorawan.MACCommand{CID: lorawan.LinkADRReq, Payload: &lorawan.LinkADRReqPayload{DataRate: 16}})
+			if f.uplink {
+				bad = &lorawan.MACCommand{CID: lorawan.DevStatusAns, Payload: &lorawan.DevStatusAnsPayload{Margin: 40}}
+			}
+			mk := func(cmds []lorawan.Payload) *lorawan.PHYPayload {
+				mp := &lorawan.MACPayload{FHDR: lorawan.FHDR{DevAddr: lorawan.DevAddr{1, 2, 3, 4}, FCnt: 1}}
+				if inFRM {
+					port := uint8(0)
+					mp.FPort, mp.FRMPayload = &port, cmds
+				} else {
+					mp.FHDR.FOpts = cmds
+				}
+				return &lorawan.PHYPayload{MHDR: lorawan.MHDR{MType: mt, Major: lorawan.LoRaWANR1}, MACPayload: mp}
+			}
+			first, err := libCmds(f.uplink, []spec.Cmd{spec.Example(f.uplink, f.cid)})
+			if err != nil {
+				c.Fail("harness/build", err.Error(), nil)
+				return
+			}
+			if _, err := mk(append(first, bad)).MarshalBinary(); err == nil {
+				c.Outcome("streams/refused-then-valid/not-refused")
+			}
+			// the valid sequence that follows
+			want := []spec.Cmd{spec.Example(f.uplink, 0x02), spec.Example(f.uplink, 0x06)}
+			valid, err := libCmds(f.uplink, want)
+			if err != nil {
+				c.Fail("harness/build", err.Error(), nil)
+				return
+			}
+			wire, err := mk(valid).MarshalBinary()
+			if err != nil {
+				c.Fail("streams/refused-then-valid/valid-sequence-refused", fmt.Sprintf("after a refused encoding (first command %02x, uplink=%v): the valid sequence %x is refused: %v", f.cid, f.uplink, spec.CmdBytes(want), err), nil)
+				return
+			}
+			c.NonTrivial()
+			var q lorawan.PHYPayload
+			if err := q.UnmarshalBinary(wire); err != nil {
+				c.Fail("streams/refused-then-valid/decode", fmt.Sprintf("%x: %v", wire, err), nil)
+				return
+			}
+			qm := q.MACPayload.(*lorawan.MACPayload)
+			var got []lorawan.Payload
+			if inFRM {
+				err = q.DecodeFRMPayloadToMACCommands()
+				got = qm.FRMPayload
+			} else {
+				err = q.DecodeFOptsToMACCommands()
+				got = qm.FHDR.FOpts
+			}
+			if msg := sameCmds(f.uplink, got, want); err != nil || msg != "" {
+				c.Fail("streams/refused-then-valid/sequence-differs", fmt.Sprintf("after a refused encoding (first command %02x, uplink=%v): the sequence %x is encoded as %x and decodes differently: %s (err %v)", f.cid, f.uplink, spec.CmdBytes(want), wire, msg, err), nil)
+			}
+		})
+	}
+
 	// ---- registry: every registered size 1..300 (one registration from the reset registry): the stream
 	// decoder frames the CID with exactly that size, in FOpts form and as a port-0 FRMPayload
 	r.PartWorkers("registry/sizes", []string{"size:1..300", "direction:2", "cid{80,ff}"}, 300*2*2, 1, func(c *engine.Case) {
